@@ -69,7 +69,10 @@ def _set_snaps(run: Run, st: Ref, s: z3.ExprRef) -> None:
 def s_push(run: Run, recv: Ref, args: list[Any], kw: dict[str, Any]) -> None:
     I, S = stack_view(run, recv)  # noqa: N806, E741
     ek = run.obj(recv)["$ek"]
-    I2, _ = ref_push(I, S, z(args[0], ek))  # noqa: N806
+    x = args[0]
+    if isinstance(x, Ref) and "$term" in run.obj(x):
+        x = run.obj(x)["$term"]  # heap object standing for a z3 term (a Rule pushed on the rule stack)
+    I2, _ = ref_push(I, S, z(x, ek))  # noqa: N806
     _set_items(run, recv, I2)
 
 
